@@ -172,8 +172,47 @@ class ComputeTypeVisitor(Visitor.DefaultVisitor):
                 expr.SetType(expr.GetOperator().GetReturnType())
             elif isinstance(expr, ast.AffixExpression):
                 expr.SetType(expr.children[0].GetType())
+            elif isinstance(expr, ast.ConstructPrimitiveExpression):
+                self.__ValidateConstructor(expr)
 
         return expr.GetType()
+
+    def __ValidateConstructor(self, expr: ast.ConstructPrimitiveExpression):
+        """The arguments of a constructor must provide exactly the components
+        of the constructed type: scalars and vectors for a vector (any
+        split), one vector per row for a matrix, one scalar for a scalar."""
+        target = expr.GetType()
+        argumentTypes = [a.GetType() for a in expr.GetArguments()]
+
+        def Fail(argumentType):
+            Errors.ERROR_INCOMPATIBLE_TYPES.Raise(argumentType, target)
+
+        for argumentType in argumentTypes:
+            if not isinstance(argumentType, types.PrimitiveType):
+                Fail(argumentType)
+
+        if target.IsMatrix():
+            if len(argumentTypes) != target.GetRowCount():
+                Fail(target)
+            for argumentType in argumentTypes:
+                if (
+                    not argumentType.IsVector()
+                    or argumentType.GetComponentCount()
+                    != target.GetColumnCount()
+                ):
+                    Fail(argumentType)
+        else:
+            expected = target.GetComponentCount() if target.IsVector() else 1
+            provided = 0
+            for argumentType in argumentTypes:
+                if argumentType.IsMatrix():
+                    Fail(argumentType)
+                elif argumentType.IsVector():
+                    provided += argumentType.GetComponentCount()
+                else:
+                    provided += 1
+            if provided != expected:
+                Fail(target)
 
     def v_VariableDeclaration(self, decl, ctx):
         assert isinstance(decl, ast.VariableDeclaration)
